@@ -206,7 +206,39 @@ def run_function_level(m, scratch, rng, rep, n_seq):
                     pass
                 if tr.execs() or raised != "RuntimeError":
                     rep.violation("C19:null-runner-executed", "null runner: %d bodies executed, call raised %r" % (len(tr.execs()), raised), {"spec": sp})
+        # null runner over a store that already holds mementos: intact, and with the result data lost (separate metadata path,
+        # data directory removed) -- whatever the call does, no body may run
         import shutil
+        from twosigma.memento.storage_filesystem import FilesystemStorageBackend
+        for lost in (False, True):
+            for cache in (False, True):
+                droot = os.path.join(root, "nr-%d%d" % (lost, cache))
+
+                def mk():
+                    return FilesystemStorageBackend(path=os.path.join(droot, "data"), metadata_path=os.path.join(droot, "meta"), memory_cache_mb=1 if cache else None)
+                fnlib.set_env(m, root, {"fc": (mk(), None)})
+                nested = {"id": 9900 + 2 * lost + cache, "calls": [{"fn": "n1", "spec": {"id": 9950 + 2 * lost + cache}}]}
+                fnmod.n0(nested)
+                if lost:
+                    shutil.rmtree(os.path.join(droot, "data"), ignore_errors=True)
+                fnlib.set_env(m, root, {"fc": (mk(), NullRunnerBackend())})
+                for how in ("call", "batch", "map"):
+                    tr.clear()
+                    total += 1
+                    try:
+                        if how == "call":
+                            fnmod.n0(nested)
+                        elif how == "batch":
+                            fnmod.n0.call_batch([{"spec": nested}], raise_first_exception=False)
+                        else:
+                            fnmod.n0.map_over_range(spec=[nested])
+                    except Exception:
+                        pass
+                    if tr.execs():
+                        rep.violation("C19:null-runner-executed:%s" % ("result-data-lost" if lost else "memoized"),
+                                      "null runner over a store holding the memento (%s, %s): %s executed bodies %r" % (
+                                          "result data removed" if lost else "intact", "with cache" if cache else "no cache", how, [e[1] for e in tr.execs()]), {"spec": nested})
+                shutil.rmtree(droot, ignore_errors=True)
         shutil.rmtree(root, ignore_errors=True)
     return total
 
